@@ -18,6 +18,8 @@ CLAIMED = {
             "DESIGN.md 3/C14", "bounded model checking of the real code (Kani 0.68 / CBMC 6.11 + CaDiCaL), differential vs. bit-vector model, generated operation sequences"),
     "C16": ("Bounded model checking of deblock() for every enumerated image size with fewer than two rows or fewer than ten columns (and small sizes with edges), symbolic content and strength: no panic / overflow / out-of-bounds, output equals the Annex J model; the strength table equals Table J.2 entry by entry.",
             "DESIGN.md 3/C16", "bounded model checking of the real code (Kani 0.68 / CBMC 6.11 + CaDiCaL)"),
+    "C06": ("Bounded model checking of the real header parser over a 256-bit fully symbolic stream against a reference parser transcribed from H.263 5.1 / the Sorenson layout: accept/reject decision, every public header field and the number of consumed bits, for every start phase, header kind and option combination enumerated.",
+            "DESIGN.md 3/C06", "bounded model checking of the real code (Kani 0.68 / CBMC 6.11 + CaDiCaL) over a model bit reader, differential vs. reference header parser"),
     "C07": ("Bounded model checking of the compiled 4-pixel kernel against the 16.16 fixed-point BT.601 formula for every input byte combination (all 2^24 colours in every lane), the formula itself shown within 1 of the exact rational BT.601 conversion, alpha 255, and monotonicity of each channel. No bound on values.",
             "DESIGN.md 3/C07", "bounded model checking of the real code (Kani 0.68 / CBMC 6.11 + CaDiCaL), differential vs. fixed-point and exact-rational oracles"),
     "C08": ("Bounded model checking of yuv420_to_rgba at enumerated sizes (all residues mod 4 / mod 2, 1-pixel rows and columns, several SIMD groups) with symbolic planes and a symbolic checked pixel; the colour kernel is replaced by a transparent stub so the query decides the wiring only.",
